@@ -105,6 +105,22 @@ func pushJSON(ctx context.Context, st content.Pusher, mediaType string, v interf
 	return desc, err
 }
 
+// decorate returns d with fields that do not belong to an artifact's identity (media type, digest, size) set in some way
+func decorate(d ocispec.Descriptor, k uint32) ocispec.Descriptor {
+	switch k % 5 {
+	case 1:
+		d.Annotations = map[string]string{"org.opencontainers.image.ref.name": "v1", "io.example/seen": "yes"}
+	case 2:
+		d.ArtifactType = "application/vnd.verif.artifact"
+	case 3:
+		d.Annotations = map[string]string{}
+	case 4:
+		d.URLs = []string{"https://mirror.example/blob"}
+		d.Data = nil
+	}
+	return d
+}
+
 func runSigRepo() int {
 	cases := readCases(*flagCases)
 	fn := func(c rawCase) []traceLine {
@@ -170,7 +186,9 @@ func runSigRepo() int {
 			if variant == "ociFresh" {
 				repo = ociRepo()
 			}
-			subj := subjects[it.S]
+			// the subject descriptor as a caller may hold it: bare, or decorated with fields that are not part of an artifact's identity
+			// (annotations, an artifact type, an empty annotation map) - as it comes from a tag resolution, a listing, a manifest
+			subj := decorate(subjects[it.S], mix(*flagSeed, c.ID, fmt.Sprintf("subj-push-%d", n)))
 			blob := []byte(fmt.Sprintf("envelope-%d-%d-%s", c.ID, n, strings.Repeat("x", n*37)))
 			ann := map[string]string{"io.cncf.notary.x509chain.thumbprint#S256": fmt.Sprintf("[\"%064d\"]", n), ocispec.AnnotationCreated: fmt.Sprintf("2024-02-%02dT00:00:00Z", n+1)}
 			rec := itemRec{blob: blob, ann: ann}
@@ -301,7 +319,7 @@ func runSigRepo() int {
 				}
 				for _, s := range []string{"s1", "s2", "s3"} {
 					lst := []int{}
-					err := repo.ListSignatures(ctx, subjects[s], func(ms []ocispec.Descriptor) error {
+					err := repo.ListSignatures(ctx, decorate(subjects[s], mix(*flagSeed, c.ID, fmt.Sprintf("subj-list-%d-%s", n, s))), func(ms []ocispec.Descriptor) error {
 						for _, m := range ms {
 							k, ok := idx[m.Digest]
 							if !ok {
